@@ -296,7 +296,7 @@ def adagrid(data, epsilon, delta, threshold, targets=[], split_strategy=None, **
             )  # get remaining aggregate measurements
             Q1 = Q1[Q1.getnnz(1) > 0]  # remove all-zero rows
             Q = sparse.vstack([Q1, Q2])
-            Q.T = sparse.csr_matrix(Q.T)  # a trick to improve efficiency of Private-PGM
+            Q = sparse.csr_matrix(Q)  # keep Q in CSR form (sparse matrices no longer allow assigning Q.T)
             # Q has sensitivity 1 by construction
             print(
                 "Measuring %s, L2 sensitivity %.6f"
@@ -335,7 +335,7 @@ def adagrid(data, epsilon, delta, threshold, targets=[], split_strategy=None, **
         )  # get remaining aggregate measurements
         Q1 = Q1[Q1.getnnz(1) > 0]  # remove all-zero rows
         Q = sparse.vstack([Q1, Q2])
-        Q.T = sparse.csr_matrix(Q.T)  # a trick to improve efficiency of Private-PGM
+        Q = sparse.csr_matrix(Q)  # keep Q in CSR form (sparse matrices no longer allow assigning Q.T)
         # Q has sensitivity 1 by construction
         print(
             "Measuring %s, L2 sensitivity %.6f"
